@@ -227,6 +227,12 @@ fn run_scenario(scn: usize, seed: u64, n_ops: usize, tr: &mut Tracer, st: &mut S
       let w = random_write_ops(&mut r, &mut ver, ids);
       apply_write_ops(&idx, &w, &mut r)?;
     }
+    if idx.manifest().segments.is_empty() {
+      // adds cancelled by deletes: commit one document so that there is something to relocate
+      ver += 1;
+      let w = WriteOps { adds: vec![(ids[0].to_string(), ver)], dels: Vec::new() };
+      apply_write_ops(&idx, &w, &mut r)?;
+    }
     pre = id_ver_list(&idx)?;
     pre_digest = digests(&idx)?;
     let m = idx.manifest();
